@@ -547,6 +547,63 @@ Proof.
     + rewrite (canon_named_single _ k i _ [] Hc eq_refl K1 E). rewrite K2. simpl. rewrite P4. reflexivity.
 Qed.
 
+Lemma keys_counts s R ks :
+  forallb (key_ok s R) ks = true ->
+  forall k, In k ks -> count_str k (map snd (s_sel s)) = 1%nat /\ count_str k (cols R) = 1%nat.
+Proof.
+  intros H k Hk. rewrite forallb_forall in H. specialize (H k Hk). unfold key_ok in H.
+  destruct (first_tab_with _ _); [|discriminate].
+  apply andb_true_iff in H. destruct H as [H1 H2]. apply Nat.eqb_eq in H1. apply Nat.eqb_eq in H2. auto.
+Qed.
+
+Lemma filter_neq_none k (out : list (expr * string)) :
+  count_str k (map snd out) = O -> filter (fun it : expr * string => negb (String.eqb (snd it) k)) out = out.
+Proof.
+  induction out as [|it r IH]; simpl; intro H; [reflexivity|].
+  destruct (String.eqb (snd it) k); simpl in *; [discriminate|]. f_equal. auto.
+Qed.
+
+Lemma remove_first_filter k : forall out : list (expr * string),
+  count_str k (map snd out) = 1%nat ->
+  remove_first k out = filter (fun it : expr * string => negb (String.eqb (snd it) k)) out.
+Proof.
+  induction out as [|it r IH]; simpl; intro H; [discriminate|].
+  destruct (String.eqb (snd it) k) eqn:E; simpl in *.
+  - symmetry. apply filter_neq_none. lia.
+  - f_equal. apply IH. exact H.
+Qed.
+
+Lemma count_filter_neq k k' (out : list (expr * string)) :
+  String.eqb k k' = false ->
+  count_str k' (map snd (filter (fun it : expr * string => negb (String.eqb (snd it) k)) out)) = count_str k' (map snd out).
+Proof.
+  intro Hne. induction out as [|it r IH]; simpl; [reflexivity|].
+  destruct (String.eqb (snd it) k) eqn:E; simpl.
+  - apply String.eqb_eq in E. rewrite E, Hne. simpl. exact IH.
+  - rewrite IH. reflexivity.
+Qed.
+
+Lemma drop_keys_filter : forall ks (out : list (expr * string)),
+  nodupb ks = true -> (forall k, In k ks -> count_str k (map snd out) = 1%nat) ->
+  drop_keys ks out = filter (fun it : expr * string => negb (smem (snd it) ks)) out.
+Proof.
+  unfold drop_keys. induction ks as [|k ks IH]; intros out Hnd H; simpl.
+  - symmetry. apply filter_true. reflexivity.
+  - simpl in Hnd. apply andb_true_iff in Hnd. destruct Hnd as [Hk Hnd]. apply negb_true_iff in Hk.
+    rewrite remove_first_filter by (apply H; left; reflexivity).
+    rewrite IH; [|exact Hnd|].
+    + clear. induction out as [|it r IHr]; simpl; [reflexivity|].
+      rewrite (String.eqb_sym (snd it) k).
+      destruct (String.eqb k (snd it)); simpl; [exact IHr|].
+      destruct (smem (snd it) ks); simpl; [exact IHr | f_equal; exact IHr].
+    + intros k' Hk'. rewrite count_filter_neq; [apply H; right; exact Hk'|].
+      destruct (String.eqb k k') eqn:E; [|reflexivity].
+      apply String.eqb_eq in E. subst. assert (smem k' ks = true) by (apply smem_In; exact Hk'). congruence.
+Qed.
+
+Lemma names_rout j (l : list string) : map snd (map (fun n => (ECol (qn j n), n)) l) = l.
+Proof. rewrite map_map. simpl. apply map_id. Qed.
+
 Lemma conj_keys j (pairs : list (nat * string)) :
   conj_left (map (fun q : expr * string => EBin Eq (fst q) (ECol (qn j (snd q))))
                  (map (fun p : nat * string => (ECol (qn (fst p) (snd p)), snd p)) pairs))
@@ -566,11 +623,11 @@ Proof.
 Qed.
 
 (** * one join step *)
-Theorem join_step_ok c s R octes on how sb :
+Theorem join_step_ok c s R rbase octes on how sb :
   cfg_how_ok c = true -> cfg_none_ok c = true ->
-  inv s = true -> step_dom s R octes on how sb = true ->
-  exists s', m_join c s R octes on how sb = Some s'
-    /\ sp_join (sp_of s) R on how = Some (sp_of s')
+  inv s = true -> step_dom s R rbase octes on how sb = true ->
+  exists s', m_join c s R rbase octes on how sb = Some s'
+    /\ sp_join (sp_of s) R rbase on how = Some (sp_of s')
     /\ (keeps_inv on how = true -> inv s' = true).
 Proof.
   intros Hcfg Hcfgn Hinv Hdom.
@@ -592,6 +649,7 @@ Proof.
   set (j := List.length (s_tabs s)).
   assert (Hfr' : forall b : bool, (if negb (Nat.eqb j 1) then s_first_right s else b) = if negb (Nat.eqb j 1) then false else b)
     by (intro b; rewrite Hfr; reflexivity).
+  assert (Hff : (if negb (Nat.eqb j 1) then false else false) = false) by (destruct (negb (Nat.eqb j 1)); reflexivity).
   destruct on as [|ks|es].
   - (* no condition *)
     apply andb_true_iff in Hon. destruct Hon as [Hic Hcomp].
@@ -604,8 +662,7 @@ Proof.
     apply andb_true_iff in Hn. destruct Hn as [N1 N2].
     destruct (sel_all s R Hcanon Hnd Hcomp) as [S1 S2].
     eexists. split; [|split].
-    + unfold m_join. rewrite Ek, N2, N3, N4. fold j. rewrite Hfr.
-      replace (if negb (Nat.eqb j 1) then false else false) with false by (destruct (negb (Nat.eqb j 1)); reflexivity).
+    + unfold m_join. rewrite Ek, N2, N3, N4. fold j. rewrite Hfr, Hff.
       unfold order_of. rewrite S1. reflexivity.
     + unfold sp_join, sp_of. simpl. rewrite Hk0.
       assert (Hk0' : k0 = JInner \/ k0 = JCross).
@@ -617,6 +674,12 @@ Proof.
     apply andb_true_iff in Hon. destruct Hon as [Hon Hkeys].
     apply andb_true_iff in Hon. destruct Hon as [Hne Hndk].
     destruct (keys_resolve s R ks Hcanon Hkeys) as [pairs [P1 [P2 [P3 P4]]]].
+    assert (Hcnt := keys_counts s R ks Hkeys).
+    assert (D1 : drop_keys ks (s_sel s) = filter (fun it : expr * string => negb (smem (snd it) ks)) (s_sel s)).
+    { apply drop_keys_filter; [exact Hndk|]. intros k Hk. apply (Hcnt k Hk). }
+    assert (D2 : drop_keys ks (map (fun n => (ECol (qn j n), n)) (cols R))
+                 = filter (fun it : expr * string => negb (smem (snd it) ks)) (map (fun n => (ECol (qn j n), n)) (cols R))).
+    { apply drop_keys_filter; [exact Hndk|]. intros k Hk. rewrite names_rout. apply (Hcnt k Hk). }
     assert (Hrest := fun seen0 H0 => sel_rest s R Hcanon Hnd ks (is_semi_anti k') seen0 H0).
     assert (Hc' : is_semi_anti k' = true \/
                   forallb (complete s) (filter (fun n => negb (smem n ks)) (cols R)) = true).
@@ -625,12 +688,11 @@ Proof.
     + (* full outer: COALESCE items, then the rest with nothing seen *)
       destruct (Hrest [] (fun n _ => eq_refl) Hc') as [R1 R2].
       eexists. split; [|split].
-      * unfold m_join. cbn match. rewrite Fk, Fcr, Flo, Ffu, Fri. fold j. rewrite Hfr'.
-        replace (if negb (Nat.eqb j 1) then false else false) with false by (destruct (negb (Nat.eqb j 1)); reflexivity).
+      * unfold m_join. cbn match. rewrite Fk, Fcr, Flo, Ffu, Fri. fold j. rewrite Hfr', Hff.
         rewrite P1. unfold order_of.
         rewrite (resolve_iexpr_prefix _ (fun p => ECoalesce (ECol (qn (fst p) (snd p))) (ECol (qn j (snd p)))) snd).
         rewrite R1. reflexivity.
-      * unfold sp_join, sp_of. simpl. rewrite Hk0. fold k'. rewrite P4.
+      * unfold sp_join, sp_of. simpl. rewrite Hk0. fold k'. fold j. rewrite P4, D1, D2.
         apply jkind_eqb_eq in Efull. rewrite Efull. simpl.
         rewrite conj_keys, map_map. simpl. rewrite Ewh.
         rewrite Efull in *. simpl in *. reflexivity.
@@ -642,12 +704,11 @@ Proof.
       { intros n Hn. rewrite app_nil_r. rewrite count_str_rev. apply count_str_notin. exact Hn. }
       { exact Hc'. }
       eexists. split; [|split].
-      * unfold m_join. cbn match. rewrite Fk, Fcr, Flo, Ffu, Fri. fold j. rewrite Hfr'.
-        replace (if negb (Nat.eqb j 1) then false else false) with false by (destruct (negb (Nat.eqb j 1)); reflexivity).
+      * unfold m_join. cbn match. rewrite Fk, Fcr, Flo, Ffu, Fri. fold j. rewrite Hfr', Hff.
         rewrite P1. unfold order_of.
         replace (map (fun p : nat * string => IName (snd p)) pairs) with (map IName (map snd pairs)) by (rewrite map_map; reflexivity).
         rewrite resolve_items_app, K1. rewrite P2. rewrite R1. reflexivity.
-      * unfold sp_join, sp_of. simpl. rewrite Hk0. fold k'. rewrite P4.
+      * unfold sp_join, sp_of. simpl. rewrite Hk0. fold k'. fold j. rewrite P4, D1, D2.
         rewrite conj_keys, map_map. simpl. rewrite Ewh.
         destruct k'; try discriminate; reflexivity.
       * intros _. unfold inv. simpl. rewrite Ewh, andb_true_r, andb_true_r.
@@ -659,17 +720,21 @@ Proof.
     apply andb_true_iff in Hon. destruct Hon as [Hon Hcomp].
     apply andb_true_iff in Hon. destruct Hon as [Hne Hrefs].
     rewrite forallb_forall in Hrefs.
-    assert (Hes : forall out,
+    set (out' := s_sel s ++ map (fun n => (ECol (qn j n), n)) (cols R)) in *.
+    set (valid := ref_valid (s_tabs s ++ [R]) (s_bases s ++ [rbase]) out') in *.
+    assert (Hes :
       map_opt (resolve_uexpr (norm_on_ref (s_ctes s) octes (negb (Nat.eqb j 1)) j sb (indexed (s_tabs s ++ [R])))) es
-      = map_opt (sp_uexpr out) es).
-    { intro out. apply map_opt_ext_in. intros e He. apply on_uexpr_ok. apply Hrefs. exact He. }
+      = map_opt (sp_uexpr valid out') es).
+    { apply map_opt_ext_in. intros e He. apply on_uexpr_ok. apply Hrefs. exact He. }
     (* the conditions resolve (no bare names): the result of map_opt is Some *)
-    assert (Hsome : exists es', map_opt (sp_uexpr (s_sel s ++ map (fun n => (ECol (qn j n), n)) (cols R))) es = Some es').
+    assert (Hsome : exists es', map_opt (sp_uexpr valid out') es = Some es').
     { clear Hes Hne. induction es as [|e es IH]; [exists []; reflexivity|].
-      assert (He : exists e', sp_uexpr (s_sel s ++ map (fun n => (ECol (qn j n), n)) (cols R)) e = Some e').
+      assert (He : exists e', sp_uexpr valid out' e = Some e').
       { assert (Hd := Hrefs e (or_introl eq_refl)). clear IH Hrefs.
         induction e as [r|v|o a IHa b IHb|a IHa|a IHa]; simpl in *.
-        - destruct r; [discriminate| |]; eexists; reflexivity.
+        - apply andb_true_iff in Hd. destruct Hd as [Hd Hv].
+          assert (Hv' : valid r = true) by exact Hv. rewrite Hv'.
+          destruct r; [discriminate| |]; eexists; reflexivity.
         - eexists; reflexivity.
         - apply andb_true_iff in Hd. destruct Hd as [H1 H2].
           destruct (IHa H1) as [x ->]. destruct (IHb H2) as [y ->]. eexists; reflexivity.
@@ -681,25 +746,23 @@ Proof.
     destruct (is_semi_anti k') eqn:Esa.
     + destruct (sel_left_only s R Hcanon) as [S1 S2].
       eexists. split; [|split].
-      * unfold m_join. cbn match. rewrite Fk, Fcr, Flo, Fri. fold j. rewrite Hfr'.
-        replace (if negb (Nat.eqb j 1) then false else false) with false by (destruct (negb (Nat.eqb j 1)); reflexivity).
-        rewrite (Hes (s_sel s ++ map (fun n => (ECol (qn j n), n)) (cols R))), Hes'.
+      * unfold m_join. cbn match. rewrite Fk, Fcr, Flo, Fri. fold j. rewrite Hfr', Hff.
+        rewrite Hes, Hes'.
         unfold order_of. rewrite S1. reflexivity.
-      * unfold sp_join, sp_of. simpl. rewrite Hk0. fold k'. fold j. rewrite Hes', Esa, Ewh. reflexivity.
+      * unfold sp_join, sp_of. simpl. rewrite Hk0. fold k'. fold j. fold out'. fold valid. rewrite Hes', Esa, Ewh. reflexivity.
       * intros _. unfold inv. simpl. rewrite S2, Ewh. reflexivity.
     + simpl in Hcomp. destruct (sel_all s R Hcanon Hnd Hcomp) as [S1 S2].
       eexists. split; [|split].
-      * unfold m_join. cbn match. rewrite Fk, Fcr, Flo, Fri. fold j. rewrite Hfr'.
-        replace (if negb (Nat.eqb j 1) then false else false) with false by (destruct (negb (Nat.eqb j 1)); reflexivity).
-        rewrite (Hes (s_sel s ++ map (fun n => (ECol (qn j n), n)) (cols R))), Hes'.
+      * unfold m_join. cbn match. rewrite Fk, Fcr, Flo, Fri. fold j. rewrite Hfr', Hff.
+        rewrite Hes, Hes'.
         unfold order_of. rewrite S1. reflexivity.
-      * unfold sp_join, sp_of. simpl. rewrite Hk0. fold k'. fold j. rewrite Hes', Esa, Ewh. reflexivity.
-      * intros _. unfold inv. simpl. rewrite S2, Ewh. reflexivity.
+      * unfold sp_join, sp_of. simpl. rewrite Hk0. fold k'. fold j. fold out'. fold valid. rewrite Hes', Esa, Ewh. reflexivity.
+      * intros _. unfold inv. simpl. unfold out', j in *. rewrite S2, Ewh. reflexivity.
 Qed.
 
 (** * chains of joins, by induction *)
 Definition jstep_dom (s : st) (x : jstep) : bool :=
-  step_dom s (j_right x) (j_octes x) (j_on x) (j_how x) (j_same_branch x).
+  step_dom s (j_right x) (j_base x) (j_octes x) (j_on x) (j_how x) (j_same_branch x).
 
 (** the domain of a chain is checked along the run: every step in [step_dom] of the state it starts from, and every
     step but the last one leaves a canonical list behind *)
@@ -711,7 +774,7 @@ Fixpoint chain_dom (c : howcfg) (s : st) (steps : list jstep) : bool :=
       match r with
       | [] => true
       | _ => keeps_inv (j_on x) (j_how x) &&
-             match m_join c s (j_right x) (j_octes x) (j_on x) (j_how x) (j_same_branch x) with
+             match m_join c s (j_right x) (j_base x) (j_octes x) (j_on x) (j_how x) (j_same_branch x) with
              | Some s' => chain_dom c s' r
              | None => false
              end
@@ -725,7 +788,7 @@ Proof.
   intros Hc Hn. induction steps as [|x r IH]; intros s Hinv Hd.
   - exists s. split; reflexivity.
   - simpl in Hd. apply andb_true_iff in Hd. destruct Hd as [Hx Hr].
-    destruct (join_step_ok c s _ _ _ _ _ Hc Hn Hinv Hx) as [s1 [M1 [S1 I1]]].
+    destruct (join_step_ok c s _ _ _ _ _ _ Hc Hn Hinv Hx) as [s1 [M1 [S1 I1]]].
     simpl. rewrite M1, S1.
     destruct r as [|y r'].
     + exists s1. split; reflexivity.
@@ -735,13 +798,13 @@ Qed.
 
 (** hence the column list AND the rows of the whole chain are PySpark's, whatever the tables contain *)
 Corollary run_chain_ok c : cfg_how_ok c = true -> cfg_none_ok c = true ->
-  forall L lctes steps,
+  forall L lbase lctes steps,
     nodupb (cols L) = true ->
-    chain_dom c (init_st L lctes) steps = true ->
-    m_run c L lctes steps FNone = sp_run L steps FNone.
+    chain_dom c (init_st L lbase lctes) steps = true ->
+    m_run c L lbase lctes steps FNone = sp_run L lbase steps FNone.
 Proof.
-  intros Hc Hn L lctes steps Hnd Hd.
-  assert (Hinv : inv (init_st L lctes) = true).
+  intros Hc Hn L lbase lctes steps Hnd Hd.
+  assert (Hinv : inv (init_st L lbase lctes) = true).
   { unfold inv, init_st. simpl. rewrite andb_true_r, andb_true_r.
     unfold indexed. simpl. unfold init_sel.
     assert (G : forall l seen, nodupb l = true -> (forall n, In n l -> In n (cols L)) ->
@@ -757,7 +820,7 @@ Proof.
       - simpl. apply Hs. right; exact Hm'. }
     apply G; auto. }
   destruct (join_chain_ok c Hc Hn steps _ Hinv Hd) as [s' [M S]].
-  unfold m_run, sp_run. rewrite M. change (init_sp L) with (sp_of (init_st L lctes)). rewrite S.
+  unfold m_run, sp_run. rewrite M. change (init_sp L lbase) with (sp_of (init_st L lbase lctes)). rewrite S.
   simpl. symmetry. apply eval_sp_of.
 Qed.
 
@@ -779,8 +842,8 @@ Proof.
   rewrite filter_true by reflexivity. reflexivity.
 Qed.
 
-Lemma m_join_shape c s R octes on how sb s' :
-  m_join c s R octes on how sb = Some s' ->
+Lemma m_join_shape c s R rbase octes on how sb s' :
+  m_join c s R rbase octes on how sb = Some s' ->
   s_tabs s' = s_tabs s ++ [R] /\ s_where s' = s_where s /\ exists k cond, s_joins s' = s_joins s ++ [(k, cond)].
 Proof.
   unfold m_join. intro E.
@@ -794,22 +857,22 @@ Qed.
 
 (** the implementation's single join, inside the domain: PySpark's columns, and rows = projection of the SQL join *)
 Corollary single_join_ok c : cfg_how_ok c = true -> cfg_none_ok c = true ->
-  forall L lctes x,
-    nodupb (cols L) = true -> jstep_dom (init_st L lctes) x = true ->
-    m_run c L lctes [x] FNone = sp_run L [x] FNone
-    /\ forall fr, m_run c L lctes [x] FNone = Some fr ->
+  forall L lbase lctes x,
+    nodupb (cols L) = true -> jstep_dom (init_st L lbase lctes) x = true ->
+    m_run c L lbase lctes [x] FNone = sp_run L lbase [x] FNone
+    /\ forall fr, m_run c L lbase lctes [x] FNone = Some fr ->
          exists k cond sel,
            cols fr = map snd sel /\
            rows fr = map (proj (if is_semi_anti k then map (qn 0) (cols L) else map (qn 0) (cols L) ++ map (qn 1) (cols (j_right x))) sel)
                          (join (on_match (map (qn 0) (cols L)) (map (qn 1) (cols (j_right x))) cond)
                                (List.length (cols L)) (List.length (cols (j_right x))) k (rows L) (rows (j_right x))).
 Proof.
-  intros Hc Hn L lctes x Hnd Hd.
-  assert (Hcd : chain_dom c (init_st L lctes) [x] = true) by (simpl; rewrite Hd; reflexivity).
+  intros Hc Hn L lbase lctes x Hnd Hd.
+  assert (Hcd : chain_dom c (init_st L lbase lctes) [x] = true) by (simpl; rewrite Hd; reflexivity).
   split; [apply run_chain_ok; assumption|].
   intros fr Hfr. unfold m_run in Hfr. cbn [m_chain] in Hfr.
-  destruct (m_join c (init_st L lctes) (j_right x) (j_octes x) (j_on x) (j_how x) (j_same_branch x)) as [s'|] eqn:E; [|discriminate].
-  destruct (m_join_shape _ _ _ _ _ _ _ _ E) as [T [W [k [cond J]]]].
+  destruct (m_join c (init_st L lbase lctes) (j_right x) (j_base x) (j_octes x) (j_on x) (j_how x) (j_same_branch x)) as [s'|] eqn:E; [|discriminate].
+  destruct (m_join_shape _ _ _ _ _ _ _ _ _ E) as [T [W [k [cond J]]]].
   cbn [m_fin] in Hfr. unfold eval_st in Hfr. rewrite T, W, J in Hfr. cbn [init_st s_tabs s_joins s_where app] in Hfr.
   exists k, cond, (s_sel s').
   destruct (single_join_rows _ _ _ _ _ _ Hfr) as [H1 H2]. rewrite !map_length in H2. split; assumption.
